@@ -51,6 +51,7 @@ func specLinesText(lines []string, i int) string {
 // ---- splitter (input_spliter.go)
 //@ func gtree.split
 //@   requires nn: ctx != nil
+//@   requires live [C02]: !ctxCancelled[ctx]
 //@   carries blockc: blockChan
 //@   carries errc: errChan
 //@   carries result0: blockChan
@@ -73,6 +74,7 @@ func specLinesText(lines []string, i int) string {
 //@   ensures fresh: fresh(result) && result.nodeGenerator != nil && result.nodeGenerator.parser != nil && md.parserOK(result.nodeGenerator.parser)
 //@ func gtree.rootGeneratorPipeline.generate
 //@   requires nn: rg != nil && rg.nodeGenerator != nil && rg.nodeGenerator.parser != nil && md.parserOK(rg.nodeGenerator.parser) && ctx != nil
+//@   requires live [C02]: !ctxCancelled[ctx]
 //@   carries blocks: blockChan
 //@   carries rootc: rootChan
 //@   carries errc: errChan
@@ -101,6 +103,7 @@ func specLinesText(lines []string, i int) string {
 // ---- grower stage (pipeline_tree_grower.go)
 //@ func gtree.defaultGrowerPipeline.grow
 //@   requires nn: dg != nil && dg.defaultGrowerSimple != nil && ctx != nil
+//@   requires live [C02]: !ctxCancelled[ctx]
 //@   carries roots: rootChan
 //@   carries nodes: grownChan(dg.defaultGrowerSimple)
 //@   carries errc: errChan
@@ -118,6 +121,7 @@ func specLinesText(lines []string, i int) string {
 //@   modifies Node.brnch.value, Node.brnch.path, errSent, ctxDoneSeen
 //@ func gtree.nopGrowerPipeline.grow
 //@   requires nn: ctx != nil
+//@   requires live [C02]: !ctxCancelled[ctx]
 //@   carries roots: rootChan
 //@   carries nodes: grownChan(nil)
 //@   carries errc: errChan
@@ -133,6 +137,7 @@ func specLinesText(lines []string, i int) string {
 // on the stage's error channel (C14, per goroutine: that the call then returns it is handlePipelineErr's business)
 //@ func gtree.defaultSpreaderPipeline.spread
 //@   requires nn: ds != nil && ds.defaultSpreaderSimple != nil && ctx != nil
+//@   requires live [C02]: !ctxCancelled[ctx]
 //@   carries roots: grownChan($g)
 //@   carries errc: errChan
 //@   carries result0: errChan
@@ -153,6 +158,7 @@ func specLinesText(lines []string, i int) string {
 // rejects what the real run rejects because of names)
 //@ func gtree.colorizeSpreaderPipeline.spread
 //@   requires nn: cs != nil && cs.colorizeSpreaderSimple != nil && colorizeOK(cs.colorizeSpreaderSimple) && ctx != nil
+//@   requires live [C02]: !ctxCancelled[ctx]
 //@   carries roots: grownChan($g)
 //@   requires validating [C09,C07]: g != nil ==> g.enabledValidation
 //@   carries errc: errChan
@@ -174,6 +180,7 @@ func specLinesText(lines []string, i int) string {
 // encoded output: one encoder per run (C04), Encode once per root received
 //@ contract formattedSpreadPipelineSpec
 //@   requires nn: f != nil && f.encode != nil && f.formattedRoot != nil && ctx != nil
+//@   requires live [C02]: !ctxCancelled[ctx]
 //@   carries roots: grownChan($g)
 //@   carries errc: errChan
 //@   carries result0: errChan
@@ -206,6 +213,7 @@ func specLinesText(lines []string, i int) string {
 //@ func gtree.formattedSpreaderPipeline.spread
 //@   derived from gtree.formattedSpreaderPipeline.spread[jsonNode], gtree.formattedSpreaderPipeline.spread[yamlNode], gtree.formattedSpreaderPipeline.spread[tomlNode]
 //@   requires nn: f != nil && f.encode != nil && f.formattedRoot != nil && ctx != nil
+//@   requires live [C02]: !ctxCancelled[ctx]
 //@   carries roots: grownChan($g)
 //@   carries result0: errChan
 //@   modifies out, wfail, encTrace, encoders, errSent, ctxDoneSeen
@@ -213,6 +221,7 @@ func specLinesText(lines []string, i int) string {
 // ---- mkdir stage (pipeline_tree_mkdirer.go): every root it receives comes from a validating grower (C07)
 //@ func gtree.defaultMkdirerPipeline.mkdir
 //@   requires nn: dm != nil && dm.defaultMkdirerSimple != nil && dm.defaultMkdirerSimple.fileConsiderer != nil && ctx != nil
+//@   requires live [C02]: !ctxCancelled[ctx]
 //@   carries roots: grownChan($g)
 //@   requires validating [C07]: g != nil ==> g.enabledValidation
 //@   carries errc: errChan
@@ -230,6 +239,7 @@ func specLinesText(lines []string, i int) string {
 // ---- verify stage (pipeline_tree_verifier.go)
 //@ func gtree.defaultVerifierPipeline.verify
 //@   requires nn: dv != nil && dv.defaultVerifierSimple != nil && ctx != nil
+//@   requires live [C02]: !ctxCancelled[ctx]
 //@   carries roots: grownChan($g)
 //@   requires validating [C07,C08]: g != nil ==> g.enabledValidation
 //@   carries errc: errChan
@@ -249,6 +259,7 @@ func specLinesText(lines []string, i int) string {
 // mode (cbAfterFail may become true here), and C05 is stated without the massive option.
 //@ func gtree.defaultWalkerPipeline.walk
 //@   requires nn: dw != nil && dw.defaultWalkerSimple != nil && ctx != nil
+//@   requires live [C02]: !ctxCancelled[ctx]
 //@   param callback follows walkCallback
 //@   carries roots: grownChan($g)
 //@   carries errc: errChan
